@@ -236,7 +236,9 @@ def impl_compile(text):
     r1 = once()
     r2 = once()
     try:
-        same = (r1[0] == r2[0]) and (r1[0] == 'err' and r1[1] == r2[1] or r1[0] == 'ok' and bytes(r1[1].encode()) == bytes(r2[1].encode()))
+        # compared through the structural dump (linear); TlvModel.encode of a large model is quadratic in its size
+        same = (r1[0] == r2[0]) and (r1[0] == 'err' and r1[1] == r2[1] or
+                                     r1[0] == 'ok' and canon(dump_model(r1[1])) == canon(dump_model(r2[1])))
     except Exception:   # noqa
         same = False
     if not same:
